@@ -1,6 +1,6 @@
 (* C01 — only hash-verified pieces are ever reported complete: the theorems (statements in full). *)
 From Coq Require Import NArith List Bool.
-From LTV.C01 Require Import ParamsGen Model Proofs ProofsB ProofsGeo ProofsInv.
+From LTV.C01 Require Import ParamsGen Model Proofs ProofsB ProofsGeo ProofsInv ProofsHash.
 Import ListNotations.
 Open Scope N_scope.
 
@@ -69,16 +69,33 @@ Theorem bounds :
 Proof. exact ProofsGeo.bounds. Qed.
 Print Assumptions bounds.
 
-(* "a hashing piece accepts no write", proved part: a Data event never changes a piece all of whose blocks are finished
-   (HashQueued requires exactly that). MISSING: the invariant that the blocks of a piece in the hash queue stay all
-   finished until the verdict (needs unique block keys + "the transfer a connection is receiving is unfinished", so
-   that a disconnect never erases a finished leader); checked dynamically on every recorded trace instead: the driver
-   compares the model's finished counts with the implementation's BlockList::finished() at every snapshot. *)
-Theorem hashing_never_written_partial :
-  forall (H : list N -> list N) (expected : N -> list N) (npieces : N) (psize : N -> N) s p d s' i,
-  accept H expected npieces psize s (EData p d) = Some s' -> all_finished s i = true -> piece s' i = piece s i.
-Proof. exact ProofsInv.hashing_never_written_partial. Qed.
-Print Assumptions hashing_never_written_partial.
+(* A piece that is in the hash queue (or between its verdict and mark_completed) has all blocks finished and accepts no
+   write: in every accepted trace its bytes change only through its own failed verdict (retry_most_popular), so the
+   digest is computed from the store as it still is when the verdict is delivered. (psize > 0 for every piece:
+   BlockList refuses zero-length pieces.) *)
+Theorem hashing_never_written :
+  forall (H : list N -> list N) (expected : N -> list N) (npieces : N) (psize : N -> N),
+  (forall i, i < npieces -> 0 < psize i) ->
+  forall st0 c0 tr s e s' i,
+  (forall i, In i c0 -> H (nth (N.to_nat i) st0 []) = expected i) ->
+  run H expected npieces psize (init st0 c0) tr = Some s -> accept H expected npieces psize s e = Some s' ->
+  In i (hashing s) \/ pmark s = Some i -> e <> EHashDone i false ->
+  piece s' i = piece s i /\ all_finished s i = true.
+Proof. exact ProofsHash.hashing_never_written. Qed.
+Print Assumptions hashing_never_written.
+
+(* no_fatal, part 1 (needs the hashing invariant): for every accepted event other than Data the internal_error checks
+   collected in Model.fatal cannot fire: "all blocks finished" of TransferList::hash_succeeded / hash_failed, "Could not
+   find index" of hash_failed, "already finished" of FileList::mark_completed, "already delegated" of TransferList::insert. *)
+Theorem no_fatal_hash :
+  forall (H : list N -> list N) (expected : N -> list N) (npieces : N) (psize : N -> N),
+  (forall i, i < npieces -> 0 < psize i) ->
+  forall st0 c0 tr s e s',
+  (forall i, In i c0 -> H (nth (N.to_nat i) st0 []) = expected i) ->
+  run H expected npieces psize (init st0 c0) tr = Some s -> accept H expected npieces psize s e = Some s' ->
+  (forall p d, e <> EData p d) -> fatal s e = false.
+Proof. exact ProofsHash.no_fatal_hash. Qed.
+Print Assumptions no_fatal_hash.
 
 (* hostile peers are disconnected after max_failed: no connected peer has PeerInfo::failed_counter above max_failed
    (DownloadMain::receive_corrupt_chunk erases the connection), and such a peer cannot connect again. *)
@@ -121,6 +138,24 @@ Theorem eventually_done_partial :
   (pmark s = None -> all_completed npieces s = true -> done s = false -> accept H expected npieces psize s EDone <> None).
 Proof. exact ProofsB.eventually_done_partial. Qed.
 Print Assumptions eventually_done_partial.
+
+(* Liveness, the last mile: in any reachable state with no verdict in progress, a listed piece whose blocks are all
+   finished and whose bytes are the original ones can be queued, verified, marked completed and announced; the four
+   events are enabled in sequence (a scheduler that is fair to enabled events completes the piece). Together with
+   eventually_done_partial (done is enabled once every piece is completed) this is the part of "eventually finishes" that
+   holds; what does not hold is that a missing block can always be requested from an honest peer (eventually_done_refuted). *)
+Theorem finished_piece_completes :
+  forall (H : list N -> list N) (expected : N -> list N) (npieces : N) (psize : N -> N),
+  (forall i, i < npieces -> 0 < psize i) ->
+  forall st0 c0 tr s i,
+  (forall i, In i c0 -> H (nth (N.to_nat i) st0 []) = expected i) ->
+  run H expected npieces psize (init st0 c0) tr = Some s ->
+  pmark s = None -> listed s i = true -> all_finished s i = true -> ~ In i (hashing s) ->
+  H (piece s i) = expected i ->
+  exists s', run H expected npieces psize s [EHashQueued i; EHashDone i true; EMark i; EHave i] = Some s' /\
+             In i (completed s') /\ In i (haves s') /\ piece s' i = piece s i /\ listed s' i = false.
+Proof. exact ProofsHash.finished_piece_completes. Qed.
+Print Assumptions finished_piece_completes.
 
 (* Request deadlock: an accepted trace (2 peers, one corrupting, one honest, one piece of two blocks, four failed
    verdicts) ends in a state where the honest peer is connected, the piece is not complete, nothing is queued / being
